@@ -9,6 +9,18 @@ Results (all by induction over the AST, Lemmas/Complete*.lean), at full strength
 
   T1  `mall_complete_table` — malleable mode (`satisfy_malleable`), BOTH halves (satisfaction
       and dissatisfaction), every script (typed or not, every base type), any `root_has_sig`.
+  T2  `accepted_imp_satEx` (+ `frag_satisfied_imp_satEx` per base type B/V/K/W) — THE PREMISE:
+      if ANY witness makes the encoded script of a typed B miniscript end with a true value
+      (`Script.acceptsLoose`, through the bridge theorem), in an environment that accepts only
+      what the caller holds (`AccSat.EnvOK`: unforgeability of signatures for the script's keys
+      and pk_h commitments, preimage resistance for the committed hashes, the transaction's
+      locks as the caller declares them), then the table has a satisfaction (`satEx`).  Every
+      fragment incl. `thresh` and the multi family; side conditions `AccSat.WF` = invariants of
+      the library's `Threshold` / lock-time types + no raw pkh.  With T1 / T3:
+      `accepted_imp_found_mall`, `accepted_imp_found_nonmall` — the property's two sentences.
+      Raw pkh is excluded for a reason: a non-canonical dissatisfaction (`and_b` with one side
+      true) can stand in for a canonical one that needs a raw key the caller does not know, so
+      with raw pkh an accepted witness need not have a canonical table row.
   T3  `nonmall_complete` — non-malleable mode (`satisfy`), scripts whose type is `m`
       (non-malleable) and `s`, every hash preimage known, no raw `pkh` (refused by the sanity
       rules), `1 ≤ k ≤ n` in `thresh` — hash fragments and time locks INCLUDED.
@@ -39,6 +51,8 @@ Explicit hypotheses, all decidable predicates over the nodes of the script:
 import MsVerif.Lemmas.CompleteMall
 import MsVerif.Lemmas.CompleteNonMall
 import MsVerif.Lemmas.CompleteTap
+import MsVerif.Lemmas.AccSatThm
+import MsVerif.Thm.Bridge
 
 namespace MsVerif.C02
 open MsVerif SatTable Complete
@@ -118,11 +132,16 @@ theorem mall_complete_generic (nz : Sat) (ke : KeyEnv) (ctx : Ctx) (rhs : Bool) 
 
 /-- T1: if the table has a satisfaction (dissatisfaction) built from the caller's assets, the
 malleable-mode satisfier returns a stack for the satisfaction (dissatisfaction) half — every
-script, both halves, any `root_has_sig` -/
+script (typed or not), both halves, any `root_has_sig`.
+`ThreshKOK` (`1 ≤ k ≤ n`, what `Threshold::new` enforces) is an explicit guard: for `k > n` the
+model of `thresh_mall` would index its child lists out of range (`sats[i]!` defaults) and the
+statement, though provable (`mall_complete_generic` does not use the guard), would not speak
+about any behaviour of the library. -/
 theorem mall_complete_table (ke : KeyEnv) (ctx : Ctx) (rhs : Bool) (a : Assets) (ms : Ms)
-    (hlk : NoMixedLocks a ms) (hsz : SigSizesOK a) (hsm : SmallScript ms) :
+    (hk : ThreshKOK ms) (hlk : NoMixedLocks a ms) (hsz : SigSizesOK a) (hsm : SmallScript ms) :
     (satEx (avail a ctx) ms = true → ∃ w, (satDissat ⟨ke, ctx, true, rhs, a⟩ ms).sat.stack = .stack w) ∧
     (dsatEx (avail a ctx) ms = true → ∃ w, (satDissat ⟨ke, ctx, true, rhs, a⟩ ms).dissat.stack = .stack w) := by
+  have _ := hk
   have := mall_complete_generic MODEL_NZ ke ctx rhs a ms (.inl rfl) hlk hsz hsm
   rwa [satDissatG_model] at this
 
@@ -160,7 +179,7 @@ theorem f3_model_satisfies :
 /-- the same through T1 -/
 theorem f3_satisfied_by_T1 :
     ∃ w, (satDissat ⟨keyEnv0, .segwitv0, true, true, f3Assets⟩ f3Script).sat.stack = .stack w :=
-  (mall_complete_table keyEnv0 .segwitv0 true f3Assets f3Script (by decide)
+  (mall_complete_table keyEnv0 .segwitv0 true f3Assets f3Script (by decide) (by decide)
     (sizesOK_of_noSchnorr _ (fun _ => rfl) (fun _ => rfl)) (by decide)).1 f3_table_satisfiable
 
 /-! ### non-vacuity of T1's hypotheses -/
@@ -184,11 +203,11 @@ def ex1Assets : Assets where
 theorem ex1_table : satEx (avail ex1Assets .segwitv0) ex1Script = true := by
   unfold ex1Script ex1Assets; table_eval
 
-example : (typeOf ex1Script).isSome = true ∧ NoMixedLocks ex1Assets ex1Script ∧
+example : (typeOf ex1Script).isSome = true ∧ ThreshKOK ex1Script ∧ NoMixedLocks ex1Assets ex1Script ∧
     SmallScript ex1Script := by decide
 
 example : ∃ w, (satDissat ⟨keyEnv0, .segwitv0, true, true, ex1Assets⟩ ex1Script).sat.stack = .stack w :=
-  (mall_complete_table keyEnv0 .segwitv0 true ex1Assets ex1Script (by decide)
+  (mall_complete_table keyEnv0 .segwitv0 true ex1Assets ex1Script (by decide) (by decide)
     (sizesOK_of_noSchnorr _ (fun _ => rfl) (fun _ => rfl)) (by decide)).1 ex1_table
 
 /-! ## T3 — non-malleable mode -/
@@ -274,6 +293,158 @@ example : ∃ w, (satDissat ⟨keyEnv0, .segwitv0, false, true, ex3Assets⟩ ex3
     (by decide) (by decide) (by decide) (by decide) ex3_table
   rwa [hs] at this
 
+/-! ## T2 — the property's premise: an ACCEPTED witness implies a table satisfaction -/
+
+open MsVerif.Script MsVerif.AccSat in
+/-- T2 on the structured semantics, per base type (`AccSat.SatS`): a typed fragment (side
+conditions `AccSat.WF`: the `Threshold` / lock-time invariants of the library's types and "no
+raw pkh") that runs to completion SATISFIED — B: leaves a true value; V: completes; K: the
+signature next to the key it leaves verifies; W: the value it leaves next to the `x` it found is
+true — in an environment that accepts only what the caller holds (`AccSat.EnvOK`:
+unforgeability, preimage resistance, the transaction's locks) has a table satisfaction from the
+caller's assets.  EVERY fragment, thresholds and the multi family included. -/
+theorem frag_satisfied_imp_satEx {env : Env} {ke : KeyEnv} {av : Avail}
+    (hlim : env.flags.stackLimits = false) (henv : EnvOK env ke av) (ctx : Ctx) (ms : Ms) (hw : WF ms)
+    (τ : Ty) (hτ : typeOf ms = some τ) (c c' : Core) (hrun : frag env ke ctx ms c = .ok c') :
+    SatS env (satEx av ms = true) τ.corr.base c.stack c' :=
+  sound hlim henv ctx ms hw τ hτ c c' hrun
+
+open MsVerif.Script MsVerif.AccSat in
+/-- T2 on real opcode execution (through the bridge theorem `run (encode ms) = frag ms`): if ANY
+witness stack `w` makes the encoded script of a B-typed miniscript end with a true value on top
+(consensus acceptance `acceptsLoose`; a fortiori the CLEANSTACK form `accepts`), then the
+specification's table has a satisfaction from the caller's assets. -/
+theorem accepted_imp_satEx {env : Env} {ke : KeyEnv} {av : Avail}
+    (hlim : env.flags.stackLimits = false) (henv : EnvOK env ke av) (ctx : Ctx) (ms : Ms) (hw : WF ms)
+    (τ : Ty) (hτ : typeOf ms = some τ) (hB : τ.corr.base = .B) (w : List Bytes)
+    (hacc : acceptsLoose env (encode ke ctx ms) w = true) : satEx av ms = true := by
+  unfold acceptsLoose at hacc
+  rw [State.init, Bridge.exec_encode_eq_frag_nostack env ke ctx ms _ [] rfl hlim] at hacc
+  cases hr : frag env ke ctx ms ⟨w, [], 0⟩ with
+  | error e => rw [hr] at hacc; simp [Except.map] at hacc
+  | ok c' =>
+    rw [hr] at hacc
+    simp only [Except.map] at hacc
+    have hs := sound hlim henv ctx ms hw τ hτ _ c' hr
+    cases hst : c'.stack with
+    | nil => rw [hst] at hacc; simp at hacc
+    | cons a r =>
+      rw [hst] at hacc
+      simp only [List.isEmpty_nil, Bool.true_and] at hacc
+      exact (SatS.B hB).1 hs a r hst hacc
+
+open MsVerif.Script MsVerif.AccSat in
+theorem accepts_imp_satEx {env : Env} {ke : KeyEnv} {av : Avail}
+    (hlim : env.flags.stackLimits = false) (henv : EnvOK env ke av) (ctx : Ctx) (ms : Ms) (hw : WF ms)
+    (τ : Ty) (hτ : typeOf ms = some τ) (hB : τ.corr.base = .B) (w : List Bytes)
+    (hacc : accepts env (encode ke ctx ms) w = true) : satEx av ms = true := by
+  apply accepted_imp_satEx hlim henv ctx ms hw τ hτ hB w
+  unfold accepts at hacc
+  unfold acceptsLoose
+  cases hr : run env (encode ke ctx ms) (State.init w) with
+  | error e => rw [hr] at hacc; simp at hacc
+  | ok st =>
+    rw [hr] at hacc
+    simp only [Bool.and_eq_true] at hacc ⊢
+    refine ⟨hacc.1, ?_⟩
+    cases hst : st.core.stack with
+    | nil => rw [hst] at hacc; simp at hacc
+    | cons a r =>
+      cases r with
+      | nil => rw [hst] at hacc; exact hacc.2
+      | cons b r' => rw [hst] at hacc; simp at hacc
+
+/-- the dissatisfaction side is static: a fragment typed `d` (no raw pkh) ALWAYS has a table
+dissatisfaction — so wherever the composition rules read a child's dissatisfaction (`or_b`,
+`or_d`, `or_c`, `andor`, `thresh` demand `d`), "the child was left false" needs no run-time
+argument.  (A fragment NOT typed `d` that is left false — `and_v`, `and_b` with one side true,
+a wrong `thresh` count — is a non-canonical dissatisfaction; the table does not list those and
+no satisfaction row uses them.) -/
+theorem d_typed_imp_dsatEx (av : Avail) (ms : Ms) (τ : Ty) (hτ : typeOf ms = some τ)
+    (hd : τ.corr.dissat = true) (hraw : NoRawPkH ms) : dsatEx av ms = true :=
+  AccSat.dsat_of_d av ms τ hτ hd hraw
+
+open MsVerif.Script MsVerif.AccSat in
+/-- THE PROPERTY'S FIRST SENTENCE (malleable mode): if some witness makes the script succeed in
+an environment bounded by the caller's assets, `satisfy_malleable` returns a satisfaction. -/
+theorem accepted_imp_found_mall {env : Env} (ke : KeyEnv) (ctx : Ctx) (rhs : Bool) (a : Assets) (ms : Ms)
+    (hlim : env.flags.stackLimits = false) (henv : EnvOK env ke (avail a ctx)) (hw : WF ms)
+    (τ : Ty) (hτ : typeOf ms = some τ) (hB : τ.corr.base = .B)
+    (hk : ThreshKOK ms) (hlk : NoMixedLocks a ms) (hsz : SigSizesOK a) (hsm : SmallScript ms)
+    (w : List Bytes) (hacc : acceptsLoose env (encode ke ctx ms) w = true) :
+    ∃ w', (satDissat ⟨ke, ctx, true, rhs, a⟩ ms).sat.stack = .stack w' :=
+  (mall_complete_table ke ctx rhs a ms hk hlk hsz hsm).1
+    (accepted_imp_satEx hlim henv ctx ms hw τ hτ hB w hacc)
+
+open MsVerif.Script MsVerif.AccSat in
+/-- THE PROPERTY'S SECOND SENTENCE (non-malleable mode, scripts that pass the sanity rules, all
+preimages known): … `satisfy` returns a satisfaction. -/
+theorem accepted_imp_found_nonmall {env : Env} (ke : KeyEnv) (ctx : Ctx) (a : Assets) (ms : Ms)
+    (hlim : env.flags.stackLimits = false) (henv : EnvOK env ke (avail a ctx)) (hw : WF ms)
+    (τ : Ty) (hτ : typeOf ms = some τ) (hB : τ.corr.base = .B)
+    (hm : τ.mall.nonMall = true) (hs : τ.mall.signed = true)
+    (hpre : AllPreimages a ms) (hk : ThreshKOK ms) (hlk : NoMixedLocks a ms)
+    (w : List Bytes) (hacc : acceptsLoose env (encode ke ctx ms) w = true) :
+    ∃ w', (satDissat ⟨ke, ctx, false, τ.mall.signed, a⟩ ms).sat.stack = .stack w' :=
+  nonmall_complete ke ctx a ms τ hτ hm hs hw.r hpre hk hlk
+    (accepted_imp_satEx hlim henv ctx ms hw τ hτ hB w hacc)
+
+/-! ### non-vacuity of T2: a concrete environment, script (threshold + hash + lock) and witness -/
+
+/-- keys are 33-byte compressed encodings; hashes are the identity (so a preimage "is" its hash) -/
+def ex2Ke : KeyEnv :=
+  { ser := fun k => 2 :: List.replicate 32 (UInt8.ofNat k), sortKey := fun k => [UInt8.ofNat k],
+    pkh := fun _ => [], rawPkh := fun _ => [], hashVal := fun _ h => List.replicate 32 (UInt8.ofNat h) }
+/-- the only signature that verifies is `[7]` for key 1; nLockTime = 10 -/
+def ex2Env : Script.Env :=
+  { flags := ⟨false, true, false, true, true, false, false⟩,
+    sigOk := fun pk s => pk == ex2Ke.ser 1 && s == [7],
+    hash := fun _ b => b, nLockTime := 10, nSequence := 0, txVersion := 2 }
+/-- the caller holds exactly what `ex2Env` accepts -/
+def ex2Avail : Avail :=
+  { sig := fun k => ex2Env.sigOk (ex2Ke.ser k) [7], preimage := fun _ _ => true,
+    after := fun n => Script.checkLockTime ex2Env n, older := fun n => Script.checkSequence ex2Env n,
+    rawKey := fun _ => false, rawSig := fun _ => false }
+/-- `and_v(v:thresh(1,pk(1),s:pk(2)),and_v(v:sha256(7),after(10)))` -/
+def ex2Script : Ms :=
+  .andV (.verify (.thresh 1 (.cons (.check (.pkK 1)) (.cons (.swap (.check (.pkK 2))) .nil))))
+    (.andV (.verify (.hash .sha256 7)) (.after 10))
+
+theorem ex2_sigOk (pk s : Script.Bytes) (h : ex2Env.sigOk pk s = true) : pk = ex2Ke.ser 1 ∧ s = [7] := by
+  have h' : (pk == ex2Ke.ser 1 && s == [7]) = true := h
+  rw [Bool.and_eq_true, beq_iff_eq, beq_iff_eq] at h'
+  exact h'
+
+theorem ex2_envOK : AccSat.EnvOK ex2Env ex2Ke ex2Avail := by
+  constructor
+  · intro k s h
+    obtain ⟨h1, _⟩ := ex2_sigOk _ _ h
+    show (ex2Ke.ser k == ex2Ke.ser 1 && ([7] : Script.Bytes) == [7]) = true
+    rw [h1]; simp
+  · intro k p s hh h
+    obtain ⟨h1, _⟩ := ex2_sigOk _ _ h
+    have hp : p = ex2Ke.pkh k := hh
+    rw [h1] at hp
+    exact absurd hp (List.cons_ne_nil _ _)
+  · intro _ _ _ _ _; rfl
+  · intro n h; simp only [ex2Avail]; exact h
+  · intro n h; simp only [ex2Avail]; exact h
+
+example : AccSat.WF ex2Script :=
+  ⟨by decide, by decide, by decide, by decide, by decide⟩
+
+/-- the witness `[sig₁, <>, preimage]` (top first) is accepted … -/
+theorem ex2_accepted :
+    Script.acceptsLoose ex2Env (encode ex2Ke .segwitv0 ex2Script) [[7], [], List.replicate 32 7] = true := by
+  decide
+
+/-- … hence the table has a satisfaction -/
+example : satEx ex2Avail ex2Script = true := by
+  have hτ : ∃ τ, typeOf ex2Script = some τ ∧ τ.corr.base = .B := ⟨_, rfl, by decide⟩
+  obtain ⟨τ, hτ, hB⟩ := hτ
+  exact accepted_imp_satEx rfl ex2_envOK .segwitv0 ex2Script
+    ⟨by decide, by decide, by decide, by decide, by decide⟩ τ hτ hB _ ex2_accepted
+
 /-! ## T4 — descriptor level: the taproot leaf loop -/
 
 /-- the leaf loop skips no leaf: a spend is returned iff the key path is signable or some leaf
@@ -301,13 +472,14 @@ theorem tr_leafloop_minimal (ke : KeyEnv) (a : Assets) (mall : Bool) (ls : List 
 /-- malleable mode (`get_satisfaction_mall`, `into_plan_mall`): key path signable or some leaf
 table-satisfiable ⇒ a spend is returned -/
 theorem tr_complete_mall (ke : KeyEnv) (a : Assets) (tk : Bool) (ls : List TapLeaf)
-    (hlk : ∀ l ∈ ls, NoMixedLocks a l.ms) (hsz : SigSizesOK a) (hsm : ∀ l ∈ ls, SmallScript l.ms)
+    (hk : ∀ l ∈ ls, ThreshKOK l.ms) (hlk : ∀ l ∈ ls, NoMixedLocks a l.ms) (hsz : SigSizesOK a)
+    (hsm : ∀ l ∈ ls, SmallScript l.ms)
     (h : tk = true ∨ ∃ l ∈ ls, satEx (avail a .tap) l.ms = true) :
     bestTapSpend ke a true tk ls ≠ .none := by
   rw [tr_leafloop_iff]
   rcases h with h | ⟨l, hm, hs⟩
   · exact .inl h
-  · exact .inr ⟨l, hm, (mall_complete_table ke .tap _ a l.ms (hlk l hm) hsz (hsm l hm)).1 hs⟩
+  · exact .inr ⟨l, hm, (mall_complete_table ke .tap _ a l.ms (hk l hm) (hlk l hm) hsz (hsm l hm)).1 hs⟩
 
 /-- non-malleable mode (`get_satisfaction`, `into_plan`): key path signable or some leaf that
 meets T3's hypotheses is table-satisfiable ⇒ a spend is returned -/
@@ -340,5 +512,39 @@ def ex4Assets : Assets where
 example : bestTapSpend keyEnv0 ex4Assets false false ex4Leaves = .leaf 1 ∧
     bestTapSpend keyEnv0 ex4Assets true false ex4Leaves = .leaf 1 ∧
     bestTapSpend keyEnv0 ex4Assets false true ex4Leaves = .key := by decide
+
+/-- non-vacuity of the two completeness bundles at descriptor level: a tree whose second leaf is
+`ex3Script` (threshold + hash + lock), Schnorr signatures for K1 and K3 only -/
+def ex4bLeaves : List TapLeaf := [⟨.check (.pkK 0), 1⟩, ⟨ex3Script, 1⟩]
+def ex4bAssets : Assets where
+  ecdsaSig _ := false
+  schnorrSig k := if k == 1 || k == 3 then some 64 else none
+  rawPkhPk _ := none
+  rawPkhEcdsa _ := none
+  rawPkhSchnorr _ := none
+  preimage _ h := h == 7
+  checkOlder n := n == 5
+  checkAfter _ := false
+
+theorem ex4b_table : satEx (avail ex4bAssets .tap) ex3Script = true := by
+  unfold ex3Script ex4bAssets; table_eval
+
+example : bestTapSpend keyEnv0 ex4bAssets false false ex4bLeaves ≠ .none := by
+  obtain ⟨τ, hτ, _, hm, hs⟩ := ex3_typed
+  exact tr_complete_nonmall keyEnv0 ex4bAssets false ex4bLeaves
+    (.inr ⟨⟨ex3Script, 1⟩, by simp [ex4bLeaves], τ, hτ, hm, hs, by decide, by decide, by decide, by decide,
+      ex4b_table⟩)
+
+example : bestTapSpend keyEnv0 ex4bAssets true false ex4bLeaves ≠ .none := by
+  refine tr_complete_mall keyEnv0 ex4bAssets false ex4bLeaves ?_ ?_ ?_ ?_
+    (.inr ⟨⟨ex3Script, 1⟩, by simp [ex4bLeaves], ex4b_table⟩)
+  · intro l hl; simp only [ex4bLeaves, List.mem_cons, List.mem_nil_iff, or_false] at hl
+    rcases hl with rfl | rfl <;> decide
+  · intro l hl; simp only [ex4bLeaves, List.mem_cons, List.mem_nil_iff, or_false] at hl
+    rcases hl with rfl | rfl <;> decide
+  · exact ⟨fun k sz h => by
+      simp only [ex4bAssets] at h; split at h <;> simp at h; omega, fun h p hp => by cases hp⟩
+  · intro l hl; simp only [ex4bLeaves, List.mem_cons, List.mem_nil_iff, or_false] at hl
+    rcases hl with rfl | rfl <;> decide
 
 end MsVerif.C02
